@@ -488,6 +488,68 @@ type edRun struct {
 	// recent SetRequire / SetRequireSeparateIndirect of the session (structural cause of the finding
 	// "remainder-is-marker": setIndirect(false) rewrites "// indirect; T" to "// T", and T is again a marker).
 	PreBulkSuffix map[*modfile.Require]string
+	// BlockTexts: for every line, the comment texts of the commented retract blocks that enclosed it
+	// in the starting file or in any intermediate state of the session (root cause of the rationale findings:
+	// the strict parser attributes a block's comments to comment-less lines, Cleanup merges them on collapse).
+	BlockTexts map[*modfile.Line][]string
+	// SuffixBlock: lines that sit or sat in a block carrying end-of-line comments (`verb () // c`): Cleanup appends
+	// those to the line when it collapses the block (finding "empty-block-suffix-comment").
+	SuffixBlock map[*modfile.Line][]modfile.Comment
+}
+
+const edSigEmptyBlockSuffix = "empty-block-suffix-comment"
+
+// edTrackBlocks is called on the starting file and after every operation.
+func edTrackBlocks(run *edRun, fs *modfile.FileSyntax) {
+	for _, st := range fs.Stmt {
+		b, ok := st.(*modfile.LineBlock)
+		if !ok || len(b.Token) == 0 {
+			continue
+		}
+		if len(b.Suffix) > 0 {
+			for _, l := range b.Line {
+				run.SuffixBlock[l] = b.Suffix
+			}
+		}
+		if b.Token[0] == "retract" && edHasText(&b.Comments) {
+			t := edDirectiveText(&b.Comments) // "" when the block's only comments are empty `//`
+			for _, l := range b.Line {
+				have := false
+				for _, x := range run.BlockTexts[l] {
+					if x == t {
+						have = true
+					}
+				}
+				if !have {
+					run.BlockTexts[l] = append(run.BlockTexts[l], t)
+				}
+			}
+		}
+	}
+}
+
+// edSuffixText is the text of end-of-line comments only.
+func edSuffixText(cs []modfile.Comment) string {
+	return edDirectiveText(&modfile.Comments{Suffix: cs})
+}
+
+func edSameMultiset(a, b []string) bool {
+	if len(a) != len(b) {
+		return false
+	}
+	m := map[string]int{}
+	for _, x := range a {
+		m[x]++
+	}
+	for _, x := range b {
+		m[x]--
+	}
+	for _, v := range m {
+		if v != 0 {
+			return false
+		}
+	}
+	return true
 }
 
 const edSigRemainder = "require-indirect:remainder-is-marker"
@@ -555,6 +617,13 @@ func edIndirectDetail(run *edRun) string {
 		pre, had := run.PreBulkSuffix[r]
 		if !r.Indirect && q.Indirect && had && edRemainderIsMarker(pre) {
 			known = edSigRemainder
+			continue
+		}
+		if bs := run.SuffixBlock[r.Syntax]; !r.Indirect && q.Indirect && len(bs) > 0 && edIsIndirectTok(bs[0].Token) {
+			// the line sits (sat) in a block with an end-of-line comment that is an indirect marker
+			if known == "" {
+				known = edSigEmptyBlockSuffix
+			}
 			continue
 		}
 		return "require-indirect"
@@ -654,7 +723,7 @@ func edTreeLines(fs *modfile.FileSyntax) []edLineRec {
 // formats and re-parses strictly.  stopBefore < 0: run everything.
 func edRunSession(work bool, file string, ops []edOp) (run *edRun) {
 	run = &edRun{Collapsed: map[*modfile.Line]string{}, StartPtr: map[*modfile.Line]bool{}, BlankOnly: map[*modfile.Line]bool{},
-		PreBulkSuffix: map[*modfile.Require]string{}}
+		PreBulkSuffix: map[*modfile.Require]string{}, BlockTexts: map[*modfile.Line][]string{}, SuffixBlock: map[*modfile.Line][]modfile.Comment{}}
 	var fs *modfile.FileSyntax
 	if work {
 		f, err := modfile.ParseWork("go.work", []byte(file), nil)
@@ -687,6 +756,7 @@ func edRunSession(work bool, file string, ops []edOp) (run *edRun) {
 	} else {
 		run.Start = edDirsOfFile(run.Mod, ids)
 	}
+	edTrackBlocks(run, fs)
 	cur := ""
 	defer func() {
 		if r := recover(); r != nil {
@@ -706,6 +776,7 @@ func edRunSession(work bool, file string, ops []edOp) (run *edRun) {
 		} else {
 			run.Res = append(run.Res, edApplyMod(run.Mod, o))
 		}
+		edTrackBlocks(run, fs)
 	}
 	cur = "final-cleanup"
 	edTrackCollapse(run, fs)
